@@ -158,6 +158,29 @@ fn tag_strategy(_: &Ctx) -> BoxedStrategy<TagCase> {
         .boxed()
 }
 
+/// Every kind's conformant header tag at every declared size 8..=len+16, cut or
+/// padded to that size (tag flush against the guard page).
+fn enumerate_tags(_: &Ctx) -> Box<dyn Iterator<Item = TagCase>> {
+    let mut v = Vec::new();
+    for kind in 0u32..=10 {
+        for n in [0usize, 1, 2, 3, 7] {
+            if n > 0 && kind != 1 {
+                continue;
+            }
+            for sel in [0u32, 1, 5, 9] {
+                let base = mb2_model::encode::conformant_hdr_tag(kind, 0xC09, n, sel);
+                for size in 8..=base.len() + 16 {
+                    let mut img = base.clone();
+                    img.resize(r8(size), 0x5A);
+                    put32(&mut img, 4, size as u32);
+                    v.push(TagCase { img: Hex(img), kind });
+                }
+            }
+        }
+    }
+    Box::new(v.into_iter())
+}
+
 pub fn subs() -> Vec<Box<dyn Sub>> {
     vec![
         Box::new(PropSub::<Case> {
@@ -173,12 +196,12 @@ pub fn subs() -> Vec<Box<dyn Sub>> {
         }),
         Box::new(PropSub::<TagCase> {
             name: "single-tag",
-            rule: "stand-alone adversarial header tag ending at a PROT_NONE page viewed as each of the 11 kinds via ref_from_slice + cast, with defined enumerated fields. Non-trivial = typed view obtained; distinct by hash(image, kind)",
+            rule: "stand-alone header tag ending at a PROT_NONE page (enumerated: every kind's conformant image at every declared size 8..=len+16, cut or padded to that size; generated: adversarial images) viewed as each of the 11 kinds via ref_from_slice + cast, with defined enumerated fields. Non-trivial = typed view obtained; distinct by hash(image, kind)",
             profiles: Profiles::Both,
             quick: 5000,
             thorough: 200000,
             strategy: tag_strategy,
-            enumerate: None,
+            enumerate: Some(enumerate_tags),
             enum_exhaustive: false,
             eval: eval_tag,
         }),
